@@ -7,7 +7,16 @@
 //	          argument tuple from the boundary pools, analysed by the real analyzer (rejected
 //	          programs are skipped and counted) and run on the VM (crash-isolated worker) and on the
 //	          tree-walking interpreter;
-//	(c) idx-*/arrow: `recv[i]`, `recv["k"]`, `recv[k] as T`, `recv->k` with the same index sets.
+//	(c) idx-*/arrow: `recv[i]`, `recv["k"]`, `recv[k] as T`, `recv->k` with the same index sets;
+//	(d) assign/idx-set-*: the same places as the target of an assignment, read back afterwards
+//	          (`recv.f = v; recv.f`, `recv[i] = v; recv[i]`, `recv["k"] = v; recv["k"]`);
+//	(e) backend "both": where the reference model leaves the answer open between a value and an
+//	          interrupt, the program runs on both runtimes in one case and both must make the same
+//	          choice (accepted by both or answered with an interrupt by both).
+//
+// Besides the instances of DESIGN.md the matrix holds objects whose data fields are named like
+// builtin members (names read from the analyzer's tables: those every object reserves, and those of
+// the sibling type `{ ? }`), and an any-object whose data keys are named like its own members.
 //
 // Oracle: survival (an interrupt is fine, a Go panic is not), structural hasType of the probed
 // result and of the receiver against the advertised types, and a reference model of the results
@@ -38,14 +47,17 @@ func (c18) Info(tier string) fw.Info {
 		Rule: "exhaustive cross product: type instances {int,float,bool,str,range,[int],[float],[str],[bool],[[int]],[{a:int}],[range],{?},{a:int,b:str},{r:range},?int,?str,?[int],null,fn} " +
 			"(each with empty/one/many receivers) x every member of the real ast.<Type>.Fields() x every argument tuple of the boundary pools (strings: empty/absent/present/self; counts -1,0,1,3; " +
 			"indices -len-1..len+1; elements present/absent), as Go-API key-set checks in both value libraries and as generated programs run on the VM and on the interpreter; plus indexing " +
-			"recv[i] / recv[\"k\"] / recv[k] / recv->k with the same index sets. Receivers are built as literals and, where expressible, also by parse_json and by a cast to {?}; " +
+			"recv[i] / recv[\"k\"] / recv[k] / recv->k with the same index sets, and the same places (object fields, list elements, object keys) as assignment targets read back afterwards. " +
+			"The type instances include objects whose fields are named like builtin members (the names objects reserve, e.g. keys/to_json, and the names of {?} members, e.g. to_string/get/set) and an any-object with such data keys. " +
+			"Where the reference model leaves the answer open (value or interrupt) the program additionally runs on both runtimes in one case and both must accept or both must interrupt. Receivers are built as literals and, where expressible, also by parse_json and by a cast to {?}; " +
 			"null-returning members run as a statement and bound to a variable; ?any results are also observed uncast through .to_string(). thorough adds 7-element and seed-chosen receivers and up to 200 argument tuples. " +
 			"non-trivial = the analyzer accepted the program and the member/index operation was executed by the backend (its result was probed, or it raised an interrupt, or it crashed); " +
 			"for api cases: the analyzer lists the member and Fields() of the runtime values was evaluated. distinct = distinct (part, backend, receiver, member, arguments, form)",
 		Assumptions: []string{
 			"the reference model (props/c18/model.go) fixes: negative indices count from the end for indexing, insert (positions 0..len), remove, substring; out-of-range => interrupt; substring(len) may be the whole string or an interrupt",
 			"string operations at text level (replace/split/case/number parsing) and float rendering are mirrored from the Go standard library, not re-derived",
-			"members without a model entry (to_json*, to_string of objects, get_type, parse results of arbitrary JSON) are checked for survival and the advertised type only",
+			"members without a model entry (to_json*, to_string of objects, get_type, parse results of arbitrary JSON) are checked for survival, the advertised type, and that both runtimes agree on accepting / interrupting",
+			"a data field named like a builtin member is the member the analyzer offers (with the type of the field): reading and assigning it must reach the field in both runtimes",
 			"programs the analyzer rejects are skipped (counted as analyzer-rejected); the run is broken if a (backend,type,member) pair is never exercised",
 		},
 		Exhaustive:   true,
@@ -107,6 +119,20 @@ func (c18) Cases(tier string, seed uint64) []fw.Case {
 		main = append(main, fw.MkCase(id, p.Part, p, tags...))
 	}
 	backends := []string{"vm", "tree"}
+	// addRuns adds the program once per backend, and once more as a differential case when the
+	// reference model leaves the choice between a value and an interrupt to the implementation
+	addRuns := func(p payload, e expect) {
+		for _, b := range backends {
+			q := p
+			q.Backend = b
+			add(q)
+		}
+		if e.Mode == mEither || e.Mode == mNoCrash {
+			q := p
+			q.Backend = "both"
+			add(q)
+		}
+	}
 	for _, in := range insts {
 		table := memberTable(in.T)
 		for _, m := range sortedTypeKeys(table) {
@@ -127,8 +153,13 @@ func (c18) Cases(tier string, seed uint64) []fw.Case {
 				recv, origin := rc.V, rc.Origin
 				if !isFn {
 					src, pr := callProgram(in, recv, origin, m, mt, nil, "let")
-					for _, b := range backends {
-						add(payload{Part: "field", Backend: b, Inst: in.Name, Recv: recv, Origin: origin, Member: m, Form: "let", Print: pr, Src: src})
+					addRuns(payload{Part: "field", Inst: in.Name, Recv: recv, Origin: origin, Member: m, Form: "let", Print: pr, Src: src}, modelMember(recv, m, nil))
+					// the same member as the target of an assignment, read back afterwards
+					if cur, isData := recv.M[m]; isData && recv.K == "obj" && typeText(mt) != "" {
+						if v, ok := otherValue(mt, cur); ok {
+							src, pr := assignProgram(in, recv, origin, "assign", m, rv{}, v, mt)
+							addRuns(payload{Part: "assign", Inst: in.Name, Recv: recv, Origin: origin, Member: m, Args: []rv{v}, Form: "let", Print: pr, Src: src}, modelAssign(recv, m, v))
+						}
 					}
 					continue
 				}
@@ -153,9 +184,7 @@ func (c18) Cases(tier string, seed uint64) []fw.Case {
 				for _, args := range argTuples(params, recv, thorough) {
 					for _, form := range forms {
 						src, pr := callProgram(in, recv, origin, m, mt, args, form)
-						for _, b := range backends {
-							add(payload{Part: "call", Backend: b, Inst: in.Name, Recv: recv, Origin: origin, Member: m, Args: args, Form: form, Print: pr, Src: src})
-						}
+						addRuns(payload{Part: "call", Inst: in.Name, Recv: recv, Origin: origin, Member: m, Args: args, Form: form, Print: pr, Src: src}, modelMember(recv, m, args))
 					}
 				}
 			}
@@ -167,8 +196,19 @@ func (c18) Cases(tier string, seed uint64) []fw.Case {
 			case "list", "str":
 				for _, idx := range indexPool(recv) {
 					src, pr := indexProgram(in, recv, origin, "idx-int", idx, "let")
-					for _, b := range backends {
-						add(payload{Part: "idx-int", Backend: b, Inst: in.Name, Recv: recv, Origin: origin, Args: []rv{idx}, Form: "let", Print: pr, Src: src})
+					addRuns(payload{Part: "idx-int", Inst: in.Name, Recv: recv, Origin: origin, Args: []rv{idx}, Form: "let", Print: pr, Src: src}, modelIndex(recv, idx))
+					// the same place as the target of an assignment (lists only: a string is a value)
+					lt, isList := in.T.(ast.ListType)
+					if !isList || typeText(lt.Inner) == "" {
+						continue
+					}
+					cur := rv{K: "nil"}
+					if i, ok := wrapIndex(idx.I, len(recv.L), false); ok {
+						cur = recv.L[i]
+					}
+					if v, ok := otherValue(lt.Inner, cur); ok {
+						src, pr := assignProgram(in, recv, origin, "idx-set-int", "", idx, v, lt.Inner)
+						addRuns(payload{Part: "idx-set-int", Inst: in.Name, Recv: recv, Origin: origin, Args: []rv{idx, v}, Form: "let", Print: pr, Src: src}, modelIndexSet(recv, idx, v))
 					}
 				}
 			case "obj", "anyobj":
@@ -193,8 +233,16 @@ func (c18) Cases(tier string, seed uint64) []fw.Case {
 						}
 						for _, form := range forms {
 							src, pr := indexProgram(in, recv, origin, part, vStr(k), form)
-							for _, b := range backends {
-								add(payload{Part: part, Backend: b, Inst: in.Name, Recv: recv, Origin: origin, Args: []rv{vStr(k)}, Form: form, Print: pr, Src: src})
+							e := modelIndex(recv, vStr(k))
+							if part == "arrow" {
+								e = modelArrow(recv, k)
+							}
+							addRuns(payload{Part: part, Inst: in.Name, Recv: recv, Origin: origin, Args: []rv{vStr(k)}, Form: form, Print: pr, Src: src}, e)
+						}
+						if ft := indexResultType(in, recv, "idx-lit", vStr(k)); part == "idx-lit" && ft != nil && typeText(ft) != "" {
+							if v, ok := otherValue(ft, recv.M[k]); ok {
+								src, pr := assignProgram(in, recv, origin, "idx-set-lit", "", vStr(k), v, ft)
+								addRuns(payload{Part: "idx-set-lit", Inst: in.Name, Recv: recv, Origin: origin, Args: []rv{vStr(k), v}, Form: "let", Print: pr, Src: src}, modelIndexSet(recv, vStr(k), v))
 							}
 						}
 					}
@@ -328,6 +376,7 @@ type observed struct {
 	outcome drive.Outcome
 	probes  []rv
 	output  string
+	residue string // VM only: what a completed run left on its core ("" = nothing)
 }
 
 func runProgram(p *payload, in inst) (res fw.Result) {
@@ -351,6 +400,19 @@ func runProgram(p *payload, in inst) (res fw.Result) {
 	case "arrow":
 		e = modelArrow(p.Recv, p.Args[0].S)
 		adv = indexResultType(in, p.Recv, p.Part, p.Args[0])
+	case "assign":
+		mt, listed := memberTable(in.T)[p.Member]
+		if !listed {
+			return fw.Result{Verdict: fw.Inconclusive, Why: "the analyzer does not list " + p.Inst + "." + p.Member}
+		}
+		e = modelAssign(p.Recv, p.Member, p.Args[0])
+		adv = mt
+	case "idx-set-int":
+		e = modelIndexSet(p.Recv, p.Args[0], p.Args[1])
+		adv = indexResultType(in, p.Recv, "idx-int", p.Args[0])
+	case "idx-set-lit":
+		e = modelIndexSet(p.Recv, p.Args[0], p.Args[1])
+		adv = indexResultType(in, p.Recv, "idx-lit", p.Args[0])
 	default:
 		return fw.Result{Verdict: fw.Inconclusive, Why: "unknown part " + p.Part}
 	}
@@ -378,25 +440,48 @@ func runProgram(p *payload, in inst) (res fw.Result) {
 	if adv == nil {
 		return fw.Result{Verdict: fw.Inconclusive, Why: "the analyzer accepted an index expression the generator has no type for: " + p.Src}
 	}
-	var ob observed
-	if p.Backend == "vm" {
-		run := drive.RunVM(ao.Modules, src, "main", drive.VMOpts{StepBudget: 200_000})
-		ob.outcome = run.Outcome
-		ob.output = run.Log.Output()
-		for _, v := range run.Probes {
-			ob.probes = append(ob.probes, fromVM(v, 0))
+	observe := func(backend string) (ob observed) {
+		if backend == "vm" {
+			run := drive.RunVM(ao.Modules, src, "main", drive.VMOpts{StepBudget: 200_000})
+			ob.outcome = run.Outcome
+			ob.output = run.Log.Output()
+			for _, v := range run.Probes {
+				ob.probes = append(ob.probes, fromVM(v, 0))
+			}
+			if run.Outcome.Class == "ok" {
+				for _, r := range run.Residues {
+					if r.Stack != 0 || r.CallStack != 0 || r.MP != 0 || r.Handlers != 0 {
+						ob.residue = fmt.Sprintf("%+v", r)
+					}
+				}
+			}
+			return ob
 		}
-	} else {
 		run := drive.RunTree(ao.Modules, src, "main", drive.TreeOpts{StepBudget: 200_000})
 		ob.outcome = run.Outcome
 		ob.output = run.Log.Output()
 		for _, v := range run.Probes {
 			ob.probes = append(ob.probes, fromTree(v, 0))
 		}
+		return ob
 	}
-	res.Nontrivial = true
-	res.Cover = append(res.Cover, pairKey(p), "outcome:"+ob.outcome.Class, "expect:"+e.Mode)
-	fails = judge(p, in, e, adv, ob)
+	var ob observed
+	if p.Backend == "both" {
+		obT, obV := observe("tree"), observe("vm")
+		ob = obV
+		res.Nontrivial = true
+		res.Evals = 2
+		res.Cover = append(res.Cover, pairKey(p), "agree:"+obV.outcome.Class+"/"+obT.outcome.Class, "expect:"+e.Mode)
+		fails = judgeAgree(e, obV, obT)
+	} else {
+		ob = observe(p.Backend)
+		res.Nontrivial = true
+		res.Cover = append(res.Cover, pairKey(p), "outcome:"+ob.outcome.Class, "expect:"+e.Mode)
+		fails = judge(p, in, e, adv, ob)
+	}
+	if ob.residue != "" && len(fails) == 0 {
+		fails = append(fails, failure{"vm-residue", "the run completed but the core left something behind (a member operation that pushes or pops one value too many): " + ob.residue})
+	}
 	if len(fails) > 0 && fails[0].class == "setup-failed" && p.Origin != "" {
 		// parse_json / cast did not deliver the receiver: not a statement about the member
 		return fw.Result{Verdict: fw.Inconclusive, Why: describe(p) + ": " + fails[0].why, Cover: res.Cover}
@@ -415,15 +500,8 @@ func showAll(vs []rv) []string {
 	return out
 }
 
-// judge compares an observation with the expectation.
-func judge(p *payload, in inst, e expect, adv ast.Type, ob observed) []failure {
-	var fails []failure
-	oc := ob.outcome
-	// the first probe is the marker written after the receiver was constructed
-	constructed := len(ob.probes) > 0 && ob.probes[0].K == "bool"
-	if constructed {
-		ob.probes = ob.probes[1:]
-	}
+// notAnAnswer recognises the outcomes that are neither a value nor an interrupt of the language.
+func notAnAnswer(oc drive.Outcome) []failure {
 	switch oc.Class {
 	case "go-panic":
 		return []failure{{"go-panic:" + normCrash(oc.Message), "the interpreter panicked in Go: " + util.Clip(oc.Message, 300)}}
@@ -433,6 +511,49 @@ func judge(p *payload, in inst, e expect, adv ast.Type, ob observed) []failure {
 		return []failure{{"compile-error", "the analyzer accepted the program but the compiler failed: " + util.Clip(oc.Message, 200)}}
 	case "unknown":
 		return []failure{{"unknown-interrupt", "unclassifiable interrupt: " + util.Clip(oc.Message, 200)}}
+	}
+	return nil
+}
+
+// judgeAgree is the differential oracle for operations whose answer the reference model leaves
+// open between a value and an interrupt (substring(len), members without a model entry): the
+// property speaks of one member table for both runtimes, so whichever answer is the right one, an
+// argument tuple is either accepted by both runtimes or answered with an interrupt by both.
+func judgeAgree(e expect, vm, tree observed) []failure {
+	for _, ob := range []observed{vm, tree} {
+		if f := notAnAnswer(ob.outcome); f != nil {
+			return f
+		}
+		if len(ob.probes) == 0 || ob.probes[0].K != "bool" {
+			return []failure{{"setup-failed", "the receiver could not be constructed: " + util.Clip(ob.outcome.String(), 200)}}
+		}
+	}
+	render := func(ob observed) string {
+		if ob.outcome.Class != "ok" {
+			return "answers with the interrupt " + util.Clip(ob.outcome.String(), 120)
+		}
+		if len(ob.probes) > 1 {
+			return "accepts the operation (result " + show(ob.probes[1]) + ")"
+		}
+		return "accepts the operation"
+	}
+	if (vm.outcome.Class == "ok") != (tree.outcome.Class == "ok") {
+		return []failure{{"backends-disagree", fmt.Sprintf("the same operation on the same value is accepted by one runtime and refused by the other: the VM %s, the interpreter %s", render(vm), render(tree))}}
+	}
+	return nil
+}
+
+// judge compares an observation with the expectation.
+func judge(p *payload, in inst, e expect, adv ast.Type, ob observed) []failure {
+	var fails []failure
+	oc := ob.outcome
+	// the first probe is the marker written after the receiver was constructed
+	constructed := len(ob.probes) > 0 && ob.probes[0].K == "bool"
+	if constructed {
+		ob.probes = ob.probes[1:]
+	}
+	if f := notAnAnswer(oc); f != nil {
+		return f
 	}
 	if !constructed {
 		// the run ended before the member / index operation was reached
